@@ -27,6 +27,9 @@ func (h *c03Harness) generate(steps int, emit func(op string)) {
 		toks[c] = []c03Tok{{id: 0, origin: true}, {id: 1, origin: true}}
 		emit(fmt.Sprintf("deploy %d 1", c))
 		emit(fmt.Sprintf("mint %d 1 0 %d", c, 5000+rng.Intn(5000)))
+		if rng.Intn(6) > 0 { // the forwarder (batching) contract holds some of the origin token
+			emit(fmt.Sprintf("mint %d 1 %d %d", c, c03AccFwd, 1000+rng.Intn(3000)))
+		}
 		// two further sending accounts: some coins and tokens, allowances that are exact, too small or missing
 		for _, a := range []int{c03AccU8, c03AccU9} {
 			if rng.Intn(4) > 0 {
@@ -119,7 +122,7 @@ func (h *c03Harness) generate(steps int, emit func(op string)) {
 		}
 	}
 	callSpec := func(c, d int, amt string) (string, int) {
-		rcv := []int{0, 6, 7, 8, 9, 8}[rng.Intn(6)]
+		rcv := []int{0, 6, 7, 8, 9, 8, 0, 6, 7, 8, 9, 8, c03AccFwd}[rng.Intn(13)]
 		switch x := rng.Intn(100); {
 		case x < 40:
 			return "n", rcv
@@ -173,6 +176,76 @@ func (h *c03Harness) generate(steps int, emit func(op string)) {
 			default:
 				done = append(done, o)
 			}
+		}
+		if rng.Intn(100) < 9 {
+			// ONE transaction with several crossChainCalls (forwarder contract): several PacketSent events in one receipt
+			c := rng.Intn(c03NChains)
+			snd := []int{0, 0, 0, 0, 8, 9}[rng.Intn(6)]
+			strict := 1
+			if rng.Intn(10) < 3 {
+				strict = 0
+			}
+			var legs []string
+			k := []int{2, 2, 2, 2, 2, 2, 2, 2, 3, 1}[rng.Intn(10)]
+			budget := map[int]*big.Int{}
+			approved := map[int]bool{}
+			prev := -1
+			for j := 0; j < k; j++ {
+				d := other(c)
+				for tries := 0; tries < 3 && d == prev; tries++ {
+					d = other(c)
+				}
+				switch y := rng.Intn(100); {
+				case y < 8 && prev >= 0:
+					d = prev // twice to the same destination: both legs read the same sequence, the second SendPacket fails
+				case y < 14:
+					d = c03Ghost // no client: the hook fails, everything reverts
+				}
+				prev = d
+				t := toks[c][[]int{1, 1, 1, 0, 0}[rng.Intn(5)]]
+				if rng.Intn(6) == 0 {
+					t = toks[c][rng.Intn(len(toks[c]))]
+				}
+				if budget[t.id] == nil {
+					if t.id == 0 {
+						budget[0] = big.NewInt(int64(200 + rng.Intn(600)))
+					} else {
+						budget[t.id] = h.w.balance(c, h.w.tok[c][t.id], h.w.acc[c03AccFwd])
+					}
+				}
+				if budget[t.id].Sign() == 0 && rng.Intn(5) > 0 { // nothing of it held by the forwarder: mostly take the coin instead
+					t = toks[c][0]
+					if budget[0] == nil {
+						budget[0] = big.NewInt(int64(200 + rng.Intn(600)))
+					}
+				}
+				amt := big.NewInt(0)
+				if budget[t.id].Sign() > 0 {
+					amt = big.NewInt(1 + rng.Int63n(new(big.Int).Div(budget[t.id], big.NewInt(3)).Int64()+1))
+				}
+				if !t.origin && d == t.oc && t.scale > 0 {
+					amt.Div(amt, new(big.Int).Exp(big.NewInt(10), big.NewInt(int64(t.scale)), nil))
+				}
+				switch rng.Intn(22) {
+				case 0:
+					amt = big.NewInt(999999999) // fails inside the EVM: strict reverts everything, otherwise this leg alone is skipped
+				case 1:
+					amt = big.NewInt(0)
+				}
+				ft, fa := t.id, rng.Intn(8)
+				if rng.Intn(4) == 0 {
+					ft = 0
+				}
+				if t.id != 0 && !approved[t.id] && rng.Intn(8) > 0 {
+					legs = append(legs, fmt.Sprintf("A,%d,%d", t.id, 100000+rng.Intn(1000)))
+					approved[t.id] = true
+				}
+				call := []string{"n", "n", "n", "n", "po", "pf", "ph"}[rng.Intn(7)]
+				rcv := []int{0, 6, 7, 8, 9}[rng.Intn(5)]
+				legs = append(legs, fmt.Sprintf("S,%d,%d,%s,%d,%d,%d,%s", d, t.id, amt, rcv, ft, fa, call))
+			}
+			emit(fmt.Sprintf("batch %d %d %d %s", c, snd, strict, strings.Join(legs, " ")))
+			continue
 		}
 		x := rng.Intn(100)
 		switch {
